@@ -5,6 +5,7 @@ CONSTANTS
   MaxExcluded = 1
   AllowMalformed = FALSE
   AsFound_SignedRelativeTest = FALSE
+  AsFound_NearZeroBandIgnoresDrift = FALSE
 INVARIANT TypeOK
 INVARIANT C15_AcceptedIsSteady
 INVARIANT C15_OtherwiseRaises
